@@ -8,7 +8,7 @@ def bounds(tier): return BOUNDS[tier]
 DESCR = {}
 EXPLANATION = PG.EXPL
 ASSUMPTIONS = PG.ASSUME
-BOUNDS = {'quick': 'thirteen stream templates (single field with free key byte and free value bytes; two fields; ACK with free code/index/command/message bytes; binary with free length digit and free payload incl. LF/NUL/0xff; '
+BOUNDS = {'quick': 'fifteen stream templates (single field with free key byte and free value bytes; two fields; ACK with free code/index/command/message bytes; binary with free length digit and free payload incl. LF/NUL/0xff; '
                    'command lists with and without error, a four-frame list with a repeated key and an empty frame, an empty binary chunk as first component; two responses back to back followed by free bytes; OK followed by free bytes; streams longer than the 8-byte buffer and its doublings, text and binary), holes of 1-2 free '
                    'bytes (0x00..0xff); each decoded by the blocking connection from one read and by the async connection one byte per read; up to 4 receive calls',
           'thorough': 'as quick with holes of 3 bytes and every flavour x {one read, one byte per read}'}
